@@ -2,6 +2,6 @@
 # runs every registered quick (or thorough) check, N at a time; prints one line per check. usage: tools/run_all.sh [quick|thorough] [parallelism]
 TIER=${1:-quick}; PAR=${2:-6}
 cd "$(dirname "$0")/.."
-ids=$(/venv/bin/python -c "import json; print(' '.join(c['property_id'] for c in json.load(open('MANIFEST.json'))['checks']))")
+ids=${IDS:-$(/venv/bin/python -c "import json; print(' '.join(c['property_id'] for c in json.load(open('MANIFEST.json'))['checks']))")}
 mkdir -p /tmp/verif-runall
 printf '%s\n' $ids | xargs -P $PAR -I{} sh -c "/venv/bin/python run_check.py {} --tier $TIER > /tmp/verif-runall/{}.log 2>&1; echo {} exit=\$? \$(grep -c KNOWN-FINDING /tmp/verif-runall/{}.log) known; tail -1 /tmp/verif-runall/{}.log | cut -c1-200"
